@@ -15,9 +15,10 @@
 **   raw63 raw64 raw65 raw72 raw100 raw127 raw128 raw129 raw200 raw300   big structs: first / last byte and
 **           the bytes on both sides of every 64-byte boundary varied (reduced grid, see vf_cmp.h)
 **
-** Parameters:  dom=all | comma list of int,float,string,type,recycled,raw     grid=small|large
+** Parameters:  dom=all | comma list of int,float,string,type,recycled,reptuple,raw     grid=small|large
 **              (rawall = every raw* domain, rawbig = raw63 .. raw300)
 **              recycled = run-time record types created, deleted and re-created with another size (vf_cmp.h)
+**              reptuple = Tuples referencing one object at several positions as left operand of container cmp
 **              replay="<dom> pair i j" | "<dom> triple i j k" | "<dom> triples i j"
 **                     | "<dom> tree|table <order>"
 **
@@ -469,6 +470,155 @@ static void run_recycled(void) {
   if (rec_same_address == 0) vf_note("recycled run-time types: the allocator never handed the deleted Type block back (sanitizer quarantine?); the same-address cases were NOT exercised in this instance and are not counted");
 }
 
+/* ---- Tuples that reference ONE object at several positions -------------------------------------
+**
+** Tuple_Cmp, Tuple_Hash, len and get walk a Tuple by index, so such a Tuple is a perfectly good value
+** as the LEFT operand of cmp/eq/...; only ITERATING it (iter_next finds the cursor by pointer identity)
+** is the known finding D16, and the right operand of every container cmp is iterated.  Judged:
+**   left  = Tuple (stack and heap) over Int values {1,2} with a shared object at positions (0,1), (0,2),
+**           (1,2), (0,1,2) of a length-3 tuple (the other positions hold objects of their own), and
+**           maximally shared tuples of length 2 and 4 (two objects in all: (1,1) (1,2,1,2) (1,1,2,2) ...)
+**   right = Array, List, Tuple of every sequence of length 0..4 over {1,2}, all distinct objects
+**   sign(cmp) == lexicographic reference with the length as tie-break, the six predicates are the
+**   predicates of cmp, eq => equal hash, antisymmetry against cmp(plain Tuple with the same values, right)
+**   mirrored (cmp(right, plain-left) is in contract).
+** Observed, never judged (D16): the same shared tuples as RIGHT operand, in a forked child with a time
+** limit; the numbers of wrong answers and of hangs go into the evidence.
+*/
+#define RT_MAXLEFT 96
+#define RT_MAXRIGHT 96
+struct rt_left { int len; int val[4]; int obj[4]; int stack; char desc[48]; var t; var plain; };
+struct rt_right { int len; int val[4]; int kind; var c; };
+static struct rt_left rtl[RT_MAXLEFT]; static int nrtl;
+static struct rt_right rtr[RT_MAXRIGHT]; static int nrtr;
+static var rt_pool[2][8];               /* rt_pool[v-1][k]: k-th Int object holding value v */
+static var rt_stack_items[RT_MAXLEFT][5];
+static struct Tuple* rt_stack_tuples[RT_MAXLEFT];
+static const char* rt_kind[] = { "array", "list", "tuple" };
+
+static int rt_ref(const int* a, int la, const int* b, int lb) {
+  for (int k = 0; k < la && k < lb; k++) if (a[k] != b[k]) return a[k] < b[k] ? -1 : 1;
+  return la < lb ? -1 : la > lb ? 1 : 0;
+}
+
+static void rt_add_left(int len, const int* val, const int* obj, const char* pattern) {
+  for (int st = 0; st < 2; st++) {
+    struct rt_left* l = &rtl[nrtl];
+    l->len = len; l->stack = st;
+    size_t o = snprintf(l->desc, sizeof l->desc, "%s(", st ? "stack" : "heap");
+    for (int k = 0; k < len; k++) { l->val[k] = val[k]; l->obj[k] = obj[k]; o += snprintf(l->desc + o, sizeof l->desc - o, "%s%d%c", k ? "," : "", val[k], 'a' + obj[k]); }
+    snprintf(l->desc + o, sizeof l->desc - o, ") shared %s", pattern);
+    /* plain twin: same values, every position an object of its own */
+    l->plain = new_raw(Tuple);
+    for (int k = 0; k < len; k++) push(l->plain, rt_pool[val[k]-1][4 + k]);
+    if (st) {
+      for (int k = 0; k < len; k++) rt_stack_items[nrtl][k] = rt_pool[val[k]-1][obj[k]];
+      rt_stack_items[nrtl][len] = Terminal;
+      rt_stack_tuples[nrtl] = header_init(calloc(1, sizeof(struct Header) + sizeof(struct Tuple)), Tuple, AllocStack);
+      rt_stack_tuples[nrtl]->items = rt_stack_items[nrtl];
+      l->t = rt_stack_tuples[nrtl];
+    } else {
+      l->t = new_raw(Tuple);
+      for (int k = 0; k < len; k++) push(l->t, rt_pool[val[k]-1][obj[k]]);
+    }
+    nrtl++;
+  }
+}
+
+static void rt_build(void) {
+  for (int v = 0; v < 2; v++) for (int k = 0; k < 8; k++) rt_pool[v][k] = new_raw(Int, $I(v + 1));
+  /* length 3, one shared object at the positions of the pattern, the rest objects of their own */
+  static const int pat[4][3] = { {1,1,0}, {1,0,1}, {0,1,1}, {1,1,1} };
+  static const char* patname[4] = { "(0,1)", "(0,2)", "(1,2)", "(0,1,2)" };
+  for (int p = 0; p < 4; p++) for (int c = 0; c < 8; c++) {
+    int val[3] = { 1 + ((c >> 2) & 1), 1 + ((c >> 1) & 1), 1 + (c & 1) }, obj[3], ok = 1, sv = 0;
+    for (int k = 0; k < 3; k++) if (pat[p][k]) { if (!sv) sv = val[k]; else if (val[k] != sv) ok = 0; }
+    if (!ok) continue;
+    for (int k = 0; k < 3; k++) obj[k] = pat[p][k] ? 0 : 1 + k;
+    rt_add_left(3, val, obj, patname[p]);
+  }
+  /* maximal sharing: one object per value, lengths 2 and 4, only the sequences that repeat a value */
+  for (int len = 2; len <= 4; len += 2) for (int c = 0; c < (1 << len); c++) {
+    int val[4], obj[4] = { 0, 0, 0, 0 }, n1 = 0;
+    for (int k = 0; k < len; k++) { val[k] = 1 + ((c >> (len - 1 - k)) & 1); n1 += val[k] == 1; }
+    if (len == 2 && n1 == 1) continue;
+    rt_add_left(len, val, obj, "every-equal-value");
+  }
+  /* right operands: every sequence of length 0..4 over {1,2}, distinct objects, three kinds */
+  for (int len = 0; len <= 4; len++) for (int c = 0; c < (1 << len); c++) for (int kind = 0; kind < 3; kind++) {
+    struct rt_right* r = &rtr[nrtr++];
+    r->len = len; r->kind = kind;
+    r->c = kind == 0 ? (var)new_raw(Array, Int) : kind == 1 ? (var)new_raw(List, Int) : (var)new_raw(Tuple);
+    for (int k = 0; k < len; k++) { r->val[k] = 1 + ((c >> (len - 1 - k)) & 1); push(r->c, rt_pool[r->val[k]-1][4 + k]); }
+  }
+}
+
+static uint64_t* rt_shared;             /* [0] right answers, [1] wrong answers of the observed (not judged) direction */
+
+static void rt_observe_child(void* arg) {
+  struct rt_left* l = arg;
+  for (int j = 0; j < nrtr; j++) {
+    int r = -rt_ref(l->val, l->len, rtr[j].val, rtr[j].len);
+    int c = cmp(rtr[j].c, l->t);
+    if (SIGN(c) == r) rt_shared[0]++; else rt_shared[1]++;
+  }
+  for (int j = 0; j < nrtl; j++) {       /* shared tuple against shared tuple */
+    int r = rt_ref(rtl[j].val, rtl[j].len, l->val, l->len);
+    int c = cmp(rtl[j].t, l->t);
+    if (SIGN(c) == r) rt_shared[2]++; else rt_shared[3]++;
+  }
+}
+
+static void run_reptuple(void) {
+  vf.phase = "cmp-shared-object-tuple";
+  D.name = "shared-object-tuple";
+  rt_build();
+  int only_i = -1, only_j = -1;
+  if (vf.replay && sscanf(vf.replay, "reptuple pair %d %d", &only_i, &only_j) != 2) return;
+  vf_watchdog(120);
+  for (int i = 0; i < nrtl; i++) for (int j = 0; j < nrtr; j++) {
+    if (only_i >= 0 && (i != only_i || j != only_j)) continue;
+    struct rt_left* l = &rtl[i]; struct rt_right* rr = &rtr[j];
+    char kase[160]; size_t o = snprintf(kase, sizeof kase, "reptuple pair %d %d | left=%s right=%s(", i, j, l->desc, rt_kind[rr->kind]);
+    for (int k = 0; k < rr->len; k++) o += snprintf(kase + o, sizeof kase - o, "%s%d", k ? "," : "", rr->val[k]);
+    snprintf(kase + o, sizeof kase - o, ")");
+    vf_set_cur("%s", kase);
+    vf.executions++;
+    const char* feat = rt_kind[rr->kind];
+    int r = rt_ref(l->val, l->len, rr->val, rr->len);
+    int c = cmp(l->t, rr->c);
+    vf.evaluations += 9;
+    if (SIGN(c) != r) vf_violation(L(feat, r == 0 ? "cmp-nonzero-for-equal" : c == 0 ? "cmp-zero-for-unequal" : "cmp-sign"), kase, "cmp(tuple with a shared object, %s) = %d, reference sign %d", feat, c, r);
+    bool p;
+    p = eq(l->t, rr->c);  if (p != (c == 0)) vf_violation(L(feat, "eq"), kase, "eq = %d but cmp = %d", (int)p, c);
+    p = neq(l->t, rr->c); if (p != (c != 0)) vf_violation(L(feat, "neq"), kase, "neq = %d but cmp = %d", (int)p, c);
+    p = lt(l->t, rr->c);  if (p != (c < 0))  vf_violation(L(feat, "lt"), kase, "lt = %d but cmp = %d", (int)p, c);
+    p = gt(l->t, rr->c);  if (p != (c > 0))  vf_violation(L(feat, "gt"), kase, "gt = %d but cmp = %d", (int)p, c);
+    p = le(l->t, rr->c);  if (p != (c <= 0)) vf_violation(L(feat, "le"), kase, "le = %d but cmp = %d", (int)p, c);
+    p = ge(l->t, rr->c);  if (p != (c >= 0)) vf_violation(L(feat, "ge"), kase, "ge = %d but cmp = %d", (int)p, c);
+    /* the mirrored comparison with the plain twin of the left tuple is in contract: antisymmetry of the VALUE order */
+    int cm = cmp(rr->c, l->plain);
+    if (SIGN(cm) != -SIGN(c)) vf_violation(L(feat, "antisymmetry-against-plain-twin"), kase, "cmp(shared tuple, x) = %d but cmp(x, tuple of the same values as distinct objects) = %d", c, cm);
+    if (r == 0) { vf.evaluations++; if (hash(l->t) != hash(rr->c)) vf_violation(L(feat, "equal-values-hash-differs"), kase, "equal by value but hash %016" PRIx64 " vs %016" PRIx64, hash(l->t), hash(rr->c)); }
+    vf.nontrivial++;
+    if (vf_want_sample()) vf_sample("%s -> cmp=%d", kase, c);
+  }
+  if (only_i >= 0) return;
+  /* the other direction iterates the shared tuple: known finding D16, observed only */
+  rt_shared = mmap(NULL, 4096, PROT_READ | PROT_WRITE, MAP_SHARED | MAP_ANONYMOUS, -1, 0);
+  int hangs = 0, died = 0;
+  for (int i = 0; i < nrtl; i++) {
+    struct vf_child ch = vf_fork_run(rt_observe_child, &rtl[i], 10);
+    if (ch.timed_out) hangs++; else if (!ch.exited || ch.status != 0) died++;
+  }
+  vf_extra("shared_object_tuples", "{\"left_operands\": %d, \"right_operands\": %d, \"judged_pairs\": %d, "
+    "\"observed_as_RIGHT_operand_of_array_list_tuple\": {\"right\": %" PRIu64 ", \"wrong\": %" PRIu64 "}, "
+    "\"observed_shared_vs_shared\": {\"right\": %" PRIu64 ", \"wrong\": %" PRIu64 "}, \"children_timed_out\": %d, \"children_died\": %d}",
+    nrtl, nrtr, nrtl * nrtr, rt_shared[0], rt_shared[1], rt_shared[2], rt_shared[3], hangs, died);
+  vf_note("tuples with a shared object as RIGHT operand (iterated: known finding D16, not judged): %" PRIu64 " right / %" PRIu64 " wrong answers against Array/List/Tuple left operands, %" PRIu64 " / %" PRIu64 " against shared-object left operands, %d hangs",
+    rt_shared[0], rt_shared[1], rt_shared[2], rt_shared[3], hangs);
+}
+
 /* an uncaught Cello exception ends in exit(1): attribute it to the case in progress and keep the results */
 static void on_uncaught_exit(void) {
   char label[96];
@@ -486,7 +636,7 @@ int main(int argc, char** argv) {
   const char* doms = vf_param("dom", "all");
   if (vf.replay) {
     char dn[16];
-    if (sscanf(vf.replay, "%15s", dn) == 1) { if (!strcmp(dn, "recycled")) run_recycled(); else run_domain(dn); }
+    if (sscanf(vf.replay, "%15s", dn) == 1) { if (!strcmp(dn, "recycled")) run_recycled(); else if (!strcmp(dn, "reptuple")) run_reptuple(); else run_domain(dn); }
     vf_finish();
   }
   static const char* all[] = { "int", "float", "string", "type", "raw", "raw1", "raw3", "raw4", "raw7", "raw9", "raw12", "raw16", "raw20", "raw21", "raw63", "raw64", "raw65", "raw72", "raw100", "raw127", "raw128", "raw129", "raw200", "raw300" };
@@ -495,6 +645,7 @@ int main(int argc, char** argv) {
     run_domain(all[q]);
   }
   if (vfg_dom_selected(doms, "recycled")) run_recycled();
+  if (vfg_dom_selected(doms, "reptuple")) run_reptuple();
   vf.states = 0;
   vf_finish();
   return 0;
